@@ -7,7 +7,7 @@ cd "$(dirname "$0")/.."
 IDS=$(harness/target/release/vcheck list | grep -v '^ ')
 for S in "$@"; do
   for ID in $IDS; do
-    OUT=$(VERIF_SEED=$S ./check $ID $TIER 2>&1); RC=$?
+    OUT=$(VERIF_STRICT_CLASSES=1 VERIF_SEED=$S ./check $ID $TIER 2>&1); RC=$?
     if [ $RC -ne 0 ]; then echo "seed=$S $ID exit=$RC"; echo "$OUT" | grep -a -v "^KNOWN" | cut -c1-600 | head -6; fi
   done
   echo "seed $S done"
